@@ -48,6 +48,30 @@ func (e *Enc) latePreamble() string {
 			}
 		}
 	}
+	// axioms of the contract files that talk about spec functions used here
+	for _, ax := range e.P.Spec.Axioms {
+		if !strings.HasPrefix(ax.Label, "auto_") {
+			continue // instantiated explicitly by "use" clauses
+		}
+		calls := map[string]bool{}
+		specCalls(ax.Expr, calls)
+		used := false
+		for c := range calls {
+			if e.decls.seen["fun:sf_"+c] {
+				used = true
+			}
+		}
+		if !used {
+			continue
+		}
+		sc := &SCtx{e: e, st: e.pre, old: nil, vars: map[string]Val{}, vtypes: map[string]types.Type{}, pkg: e.pkg}
+		t, err := sc.evalBool(ax.Expr)
+		if err != nil {
+			e.warn("axiom %s: %v", ax.Label, err)
+			continue
+		}
+		fmt.Fprintf(&b, "(assert %s)\n", t.S)
+	}
 	// interface implementation tables over the type ids used in this function
 	ids := make([]int, 0, len(e.tidsUsed))
 	for id := range e.tidsUsed {
